@@ -1687,7 +1687,9 @@ impl Node {
 
     /// Return the remaining time to live.
     pub fn ttl(&self) -> Duration {
-        self.valid_for - self.created_at.elapsed()
+        // A node that has outlived its validity has no time left; plain
+        // subtraction would panic.
+        self.valid_for.saturating_sub(self.created_at.elapsed())
     }
 }
 
